@@ -520,7 +520,10 @@ func (fr *faultRun) exec() {
 			{"poryswitch(GAME_VERSION) { RUBY {", "} }"}, {"moves(", ")"}, {"format(", ")"}, {"flag(A) && ", ""}, {"flag(A) || ", ""}, {"!", ""}, {"\"x\" ", ""}, {"x(", ")"}, {"[", "]"},
 			{"case 1: ", ""}, {"if (flag(A)) {} elif (flag(B)) {} ", ""}, {"L: ", ""}, {"a * 9999 ", ""}, {"A, 1: B ", ""}, {"const A = A ", ""}, {"# c\n", ""}, {"`", ""}, {"{", "}"}, {"poryswitch(A) { _: ", "}"}}
 		pt := pats[fr2.Intn(len(pats))]
-		k := []int{3, 17, 64, 300, 1500}[fr2.Intn(5)]
+		k := []int{3, 17, 64, 300}[fr2.Intn(4)]
+		if fr2.P(0.08) {
+			k = 1500
+		}
 		if strings.Contains(pt[0], "9999") && k > 17 {
 			k = 17 // each repetition is 10^4 output lines already
 		}
@@ -533,6 +536,19 @@ func (fr *faultRun) exec() {
 		}
 		m := mode()
 		fr.observe("S10_pathological_repetition", fmt.Sprintf("%q + %q x %d", pre, pt[0], k), in, m, healthyDisk(f), "")
+	}
+	// S11: one very long token (word in a text, identifier, number): fixed-size buffers
+	// and "split at a space" loops show here
+	{
+		unit := []string{"A", "é", "9", "x_", "ポ"}[fr2.Intn(5)]
+		k := []int{31, 32, 33, 64, 127, 128, 254, 255, 256, 257, 300, 1000, 4096, 5000}[fr2.Intn(14)]
+		tok := strings.Repeat(unit, k)
+		tmpl := []string{"text T { \"%s\" }", "text T { \"a %s b\" }", "script S { msgbox(\"%s\") }", "script S { msgbox(format(\"%s\")) }", "script S { msgbox(format(\"aa %s bb cc\", 100)) }",
+			"script S { %s }", "script S { x(%s) }", "script S { if (flag(%s)) { } }", "movement M { %s }", "mart M { %s }", "const %s = 1", "script %s { }", "script S { L%s: goto(L%s) }",
+			"text T { ascii\"%s\" }", "raw `%s`", "script S { switch (var(%s)) { case %s: x } }", "mapscripts M { %s: S }"}[fr2.Intn(17)]
+		in := strings.ReplaceAll(tmpl, "%s", tok)
+		m := mode()
+		fr.observe("S11_very_long_token", fmt.Sprintf("%q with a %d x %q token", tmpl, k, unit), in, m, healthyDisk(f), "")
 	}
 	// E: environment faults on the well-formed program
 	fj := f.Fonts.JSON()
